@@ -85,7 +85,7 @@ class EventLog:
 
 class Result:
     """Outcome of one simulated run."""
-    __slots__ = ('viol', 'obs', 'reach', 'sig', 'nontrivial', 'digest', 'simtime_us', 'steps', 'events', 'sample')
+    __slots__ = ('viol', 'obs', 'reach', 'sig', 'nontrivial', 'digest', 'simtime_us', 'steps', 'events', 'sample', 'events_extra')
 
     def __init__(self):
         self.viol = []       # [{'cls':..., 'key':..., 'msg':...}] verdict-relevant
@@ -466,6 +466,13 @@ def write_evidence(module, batch, tier, seed, n_viol, known_lines, extra=None):
         'repo_tree': tree_identity(),
         'repo_path': REPO,
     }
+    try:
+        from . import asmsim
+        if asmsim.asm is not None:
+            cov['fs_backend'] = {'probe_result': asmsim.BACKEND, 'reason': asmsim.BACKEND_REASON or 'canary program assembles on the SimFS shim',
+                                 'runs_on_sim': batch.reach.get('backend:sim', 0), 'runs_on_real': batch.reach.get('backend:real', 0)}
+    except Exception:
+        pass
     rep = os.path.join(VERIF, 'selftest', 'determinism_report.json')
     if os.path.exists(rep):
         try:
@@ -602,6 +609,10 @@ def _run_check(module, tier, seed, workers=None, runs=None, verify_replay=True, 
           % (module.ID, batch.evals, len(batch.nontrivial_sigs), batch.steps, batch.simtime_us / 1e6, wall,
              int(batch.evals / wall * 3600) if wall else 0, batch.digest()))
     print('evidence: %s' % path)
+    fatal = [k for k in batch.obs if k.startswith(tuple(getattr(module, 'FATAL_OBS', ()) or ('\0',)))]
+    if fatal:
+        print('HARNESS-ERROR stub and real file system disagree (%s): the SimFS model misrepresents the code; nothing reported by this run is to be believed' % ', '.join(fatal))
+        return 2
     if vac and rc == 0:
         print('HARNESS-ERROR required reach counters stuck at zero: %s' % ', '.join(vac))
         return 2
